@@ -264,6 +264,10 @@ func (c *Ctx) Violated(rule, fn, construct, detail string, pos token.Pos) {
 	// When the examined function now delegates to such a new helper, a mismatch is not a witness of a violation (the
 	// logic may simply have moved): the obligation is undecided. Rules that are inter-procedural by construction
 	// (write effects, shared state) keep their verdict.
+	if os.Getenv("GMSMCHECK_SOFTFORMULA") != "" && (strings.HasPrefix(rule, "K-") || strings.HasPrefix(rule, "T-") || strings.HasPrefix(rule, "P-C03") || strings.HasPrefix(rule, "U-")) {
+		c.add(Obligation{Rule: rule, Func: fn, Construct: construct, Verdict: "undecided", Detail: "(formula rule, soft) " + detail, Pos: c.P.pos(pos)})
+		return
+	}
 	if !strings.HasPrefix(rule, "FX-") && !strings.HasPrefix(rule, "L-") && !strings.HasPrefix(rule, "G-COPY") {
 		if h := c.P.newHelperCalledBy(fn); h != "" {
 			c.add(Obligation{Rule: rule, Func: fn, Construct: construct, Verdict: "undecided", Detail: "the function now delegates to " + h + ", which is not on the reference list of functions (baseline_funcs.txt), and this rule does not follow calls into new helpers; without that: " + detail, Pos: c.P.pos(pos)})
